@@ -535,7 +535,88 @@ def case_faces(i, case, out):
         face_table_checks(i, out, mesh, el, "after-" + mo["t"])
 
 
-CASES = {"purity": case_purity, "deformed": case_deformed, "faces": case_faces, "geom": case_geom, "locate_gmsh": case_locate_gmsh, "locate_single": case_locate_single, "outside": case_outside}
+# ------------------------------------------------------------------ query / move / query sequences
+def transform_points(mo, pts):
+    pts = np.asarray(pts, float)
+    if mo["t"] == "translate":
+        return pts + np.array(mo["d"], float)
+    if mo["t"] == "rotate":
+        R = rotmat(mo["dir"], mo["theta"] * np.pi / 180)
+        c = np.array(mo["center"], float)
+        return (pts - c) @ R.T + c
+    if mo["t"] == "symmetry":
+        n = np.array(mo["n"], float) / np.linalg.norm(mo["n"])
+        p = np.array(mo["point"], float)
+        return pts - 2 * ((pts - p) @ n)[:, None] * n
+    raise ValueError(mo)
+
+
+def case_sequence(i, case, out):
+    """locate -> move the SAME mesh object -> locate again, ...; each time compared with the exact
+    field and with a freshly built mesh at the moved coordinates.  Steps: translate / rotate /
+    symmetry through the Mesh methods, `setcoord` (mesh.coord = transformed array) and `deepcopy`
+    (the copy is moved and queried, the original is queried again where it was)."""
+    import copy
+    Mesher, ElemType, Points, Point, Mesh, MatrixType, F = _imports()
+    rng = np.random.default_rng(case["seed"])
+    el = case["elem"]
+    if case.get("verts") is not None:
+        X, et, dim = place_nodes(el, case["verts"])
+        n = len(X)
+        X2 = np.vstack([X, X + np.array([5.0, 1.0, 0.5 if dim == 3 else 0.0])])
+        mesh = Mesh({et: F.Create(et, np.vstack([np.arange(n), np.arange(n) + n]), X2)})
+    else:
+        mesh, dim = build_mesh(case)
+    tol = TOL_ITER if case["iterative"] else TOL
+    fcoef = case["field"]
+    nsym = 0
+
+    def probe(m, tag, key):
+        f = poly_field(fcoef)
+        inter, nodes, edges = query_pool(m, rng, 6)
+        pts = np.vstack([inter, nodes[:3], edges[:3]])
+        scale = max(1.0, float(np.max(np.abs(f(m.coord)))))
+        ok, what, err = evaluate(m, f, pts, tol, scale)
+        res(out, i, key, "seq:%s:%s" % (el, tag), ok, "%s, same mesh object, %s: %s" % (el, tag, what), err, 0)
+        fresh = explicit_copy(m, m.coord)
+        try:
+            with warnings.catch_warnings():
+                warnings.simplefilter("ignore")
+                a = np.asarray(m.Evaluate_dofsValues_at_coordinates(pts, f(m.coord))).ravel()
+                b = np.asarray(fresh.Evaluate_dofsValues_at_coordinates(pts, f(fresh.coord))).ravel()
+            d = float(np.max(np.abs(a - b)) / scale)
+            k = int(np.argmax(np.abs(a - b)))
+            res(out, i, key.replace("locate-after-move", "locate-vs-fresh-mesh"), "seqfresh:%s:%s" % (el, tag), d <= 10 * tol,
+                "%s, %s: Evaluate on the moved mesh object vs on a freshly built mesh with the same coordinates: max difference %.3e at %s (moved object %.12g, fresh %.12g)" % (
+                    el, tag, d, pts[k].tolist(), a[k], b[k]), d, 0)
+        except Exception as ex:
+            res(out, i, key.replace("locate-after-move", "locate-vs-fresh-mesh"), "seqfresh:%s:%s" % (el, tag), False, "%s, %s: raises %s: %s" % (el, tag, type(ex).__name__, str(ex)[:120]))
+
+    probe(mesh, "step 0 (as built)", "locate-after-move:%s:initial" % el)
+    for k, mo in enumerate(case["steps"]):
+        kind = mo["t"]
+        if kind == "setcoord":
+            inner = mo["via"]
+            nsym += inner["t"] == "symmetry"
+            mesh.coord = transform_points(inner, mesh.coord)
+            label = "mesh.coord=(%s)" % inner["t"]
+        elif kind == "deepcopy":
+            inner = mo["via"]
+            cp = copy.deepcopy(mesh)
+            apply_motion(cp, inner, np.zeros((1, 3)))
+            par = (nsym + (inner["t"] == "symmetry")) % 2
+            probe(cp, "step %d deepcopy then %s (copy, %s reflections)" % (k + 1, inner["t"], "odd" if par else "even"),
+                  "locate-after-move:%s:deepcopy-%s:%s" % (el, inner["t"], "odd" if par else "even"))
+            label = "deepcopy-original"
+        else:
+            nsym += kind == "symmetry"
+            apply_motion(mesh, mo, np.zeros((1, 3)))
+            label = kind
+        par = "odd" if nsym % 2 else "even"
+        probe(mesh, "step %d after %s (%s number of reflections so far)" % (k + 1, label, par), "locate-after-move:%s:%s:%s" % (el, label, par))
+
+
+CASES = {"sequence": case_sequence, "purity": case_purity, "deformed": case_deformed, "faces": case_faces, "geom": case_geom, "locate_gmsh": case_locate_gmsh, "locate_single": case_locate_single, "outside": case_outside}
 
 
 def run_cases(cases):
